@@ -22,6 +22,14 @@ def followed_by_label(tier):
             head = [("config", "BITS", ("num", 32))] if mode == 32 else []
             prog = head + [("mn", "ORG", [A.hexn(0x7c00)]), st, ("label", "after"), ("mn", "DW" if mode == 16 else "DD", [A.ident("after")])]
             out.append((prog, dict(tags, kind="stmt+label"), mode, st))
+    # far jumps (ptr16:16/32), with and without a size keyword: outside the walker's decoder, judged by the tail-label rule
+    for mode in (16, 32):
+        head = [("config", "BITS", ("num", 32))] if mode == 32 else []
+        for dt in ("", "DWORD", "WORD"):
+            for sg, of in ((("add", ("mul", ("num", 2), [("*", ("num", 8))]), []), A.hexn(0x1b)), (A.num(16), A.num(27)), (A.num(0), A.hexn(0xc200))):
+                st = ("mn", "JMP", [("seg", dt, sg, of)])
+                prog = head + [("mn", "ORG", [A.hexn(0x7c00)]), st, ("label", "after"), ("mn", "DW" if mode == 16 else "DD", [A.ident("after")])]
+                out.append((prog, {"kind": "stmt+label", "form": "far jmp"}, mode, st))
     # branches followed by a label: pass 1 sizes them with a fixed estimate (16-bit: JMP/Jcc 2, CALL 3, numeric target 3;
     # 32-bit: 5/6), codegen picks the form from the distance
     for mode in (16, 32):
@@ -112,13 +120,34 @@ def run(v, tier, rng):
             v.finding("X86-int-operand-panic", {"source": cases[i]["srcs"][0]})
         else:
             v.violation("assembler died", {"source": cases[i]["srcs"][0]})
+    # tail-label rule (needs no decoder): in the stmt+label programs the last statement is `DW/DD after` with `after:` right
+    # before it, so the value embedded there must be ORG + (image length - width), whatever the statement before it is
+    tail_checked = 0
+    for i in idx:
+        p, tags, mode, st = allp[i]
+        if tags.get("kind") != "stmt+label" or p[-1][0] != "mn" or p[-1][1] not in ("DW", "DD") or p[-2] != ("label", "after"):
+            continue
+        img = lib.hex2list(res[str(i)]["calls"][0]["out"])
+        w = 2 if p[-1][1] == "DW" else 4
+        if len(img) < w:
+            continue
+        tail_checked += 1
+        got = int.from_bytes(bytes(img[-w:]), "little")
+        want = (0x7c00 + len(img) - w) % (1 << (8 * w))
+        if got != want:
+            cl = size_class(tags, mode, st, p)
+            wt = {"source": cases[i]["srcs"][0], "label_value_embedded": got, "real_offset_of_label": want, "image": res[str(i)]["calls"][0]["out"][:200]}
+            if cl:
+                v.finding(cl, wt)
+            else:
+                v.violation("label after the statement has a value different from its real offset [%s]" % tags.get("form"), wt)
     for k, code in enumerate(codes):
         if code == 0:
             continue
         i = idx[k]
         p, tags, mode, st = allp[i]
         c = code % 100
-        if c in (2, 7):
+        if c in (2, 7) or (tags.get("form") == "far jmp" and c == 1):       # ptr16:32 is not in the walker's decoder: judged by the tail-label rule
             byclass["outside"] = byclass.get("outside", 0) + 1
             continue
         w = {"source": cases[i]["srcs"][0], "statement_index": code // 100, "code": c, "why": why.get(c), "image": res[str(i)]["calls"][0]["out"][:400]}
@@ -131,7 +160,7 @@ def run(v, tier, rng):
     if bad and not v.violations:
         for k in bad[:3]:
             v.tie_broken("correspondence Model/Asm.v+X86Enc.v vs gosk (whole programs)", {"source": cases[k]["srcs"][0], "impl": res[str(k)]})
-    v.cov.update({"evaluations": len(allp), "distinct_nontrivial": len(set(cases[i]["srcs"][0] for i in idx)),
+    v.cov.update({"tail_label_checked": tail_checked, "evaluations": len(allp), "distinct_nontrivial": len(set(cases[i]["srcs"][0] for i in idx)),
                   "rule": "every statement kind immediately followed by a label whose value is embedded after it (instruction skeleton x BITS, data, RESB incl. x-$, ALIGNB, EQU) + seeded random programs with labels at arbitrary positions referenced before and after definition, ORG in {none,0,0x100,0x7c00,0xc200,0x8000}; the image is walked statement by statement by the ISA decoder; non-trivial = distinct source assembled without diagnostic",
                   "samples": [cases[0]["srcs"][0], cases[-1]["srcs"][0]], "spec_checked": len(idx), "failures_by_class": byclass,
                   "correspondence_mismatches": len(bad), "random_programs": len(rnd)})
